@@ -91,6 +91,14 @@ def opener_rule(ctx, crate):
     fl = strip_sites(flag)
     opens = [bb for bb, t, c in b.calls() if last_seg(c) == "open" and "OpenOptions" in c]
     ctx.require(len(opens) == 1, "R04-1", "R04-1|%s|open" % b.path, "expected one OpenOptions::open", b.path)
+    # nothing else is configured on the OpenOptions: no raw open(2) flags, no mode games
+    extra = sorted({last_seg(c) for bb, t, c in b.calls() if ("OpenOptions" in c or "OpenOptionsExt" in c) and
+                    last_seg(c) not in opts + ("new", "open", "clone")})
+    ctx.ob("R04-1", b.path, "the target is opened with std's plain options only", not extra,
+           key="R04-1|%s|extra-open-options" % b.path, crate=crate.kind,
+           detail=None if not extra else "%s: flags like O_NONBLOCK / O_EXCL / O_NOFOLLOW change what `>` does for some targets (a "
+           "FIFO without a reader fails with ENXIO, the program inherits a non-blocking stdout and loses output on EAGAIN)" %
+           ", ".join(extra))
     for fv in (True, False):
         w = FactWalker(b, lambda a: a == fl)
 
